@@ -349,6 +349,12 @@ def checkC18 (p : PProject) (impl : Json) : PropOut := Id.run do
 def accepted (impl : Json) : Bool :=
   jstrD impl "configErr" = "" && jstrD impl "setupErr" = "" && jstrD impl "graphErr" = "" && jstrD impl "validateErr" = "" && jstrD impl "runErr" = ""
 
+/-- two declarations with one bare name: the model lists (sorted by name only) and the component map keep
+    whichever comes last, which varies from run to run — a consequence of C07-F4 -/
+def typeNameCollision (p : PProject) : Bool :=
+  let names := p.types.map (jstrD · "name")
+  names.eraseDups.length < names.length
+
 def checkC13 (p : PProject) (impl : Json) : PropOut := Id.run do
   let det := (impl.getObjVal? "determinism").toOption.getD Json.null
   if !accepted impl || det == Json.null then
@@ -365,12 +371,6 @@ def checkC13 (p : PProject) (impl : Json) : PropOut := Id.run do
     ("specDistinctAcrossEngines", (jnat j "specDistinctAcrossEngines").toOption.getD 0), ("dateOnlyDifference", jboolD j "dateOnlyDifference")]
   let want := Json.mkObj [("routesDistinct", (1 : Nat)), ("spec30Distinct", (1 : Nat)), ("specDistinctAcrossEngines", (1 : Nat)), ("dateOnlyDifference", true)]
   return { model := want, implView := view det, implFails := fails, nontrivial := true, notes := [s!"d:runs={n "runs"}"] }
-
-/-- two declarations with one bare name: the model lists (sorted by name only) and the component map keep
-    whichever comes last, which varies from run to run — a consequence of C07-F4 -/
-def typeNameCollision (p : PProject) : Bool :=
-  let names := p.types.map (jstrD · "name")
-  names.eraseDups.length < names.length
 
 def checkC19 (p : PProject) (impl : Json) : PropOut := Id.run do
   let reps := strList impl "repeats"
